@@ -12,6 +12,9 @@ from TotalDepth.RP66V1.core import pFile
 def _seg(k, pad, cs, tl, enc, new_vr, s):
     # payload: 9 + k bytes, one of them symbolic; length parity is fixed up by the pad count / an extra payload byte
     payload = bytes([0x10 * (k + 1) + i for i in range(8 + k)]) + bytes([s])
+    if pad == 9:
+        # a segment that carries no record bytes at all: header + 12 pad bytes (the minimum segment length is 16)
+        payload, pad = b'', 12
     seg = dict(payload=payload, pad=pad, checksum=cs, trailing=tl, encrypted=enc, new_vr=new_vr)
     n = 4 + len(payload) + pad + (2 if cs else 0) + (2 if tl else 0)
     if n % 2:
@@ -49,7 +52,7 @@ def _read_all(data):
 def seq_two_segments_q(split: int, pad0: int, cs0: bool, tl0: bool, enc0: bool, pad1: int, cs1: bool, enc1: bool, vr1: bool, s0: int, s1: int) -> bool:
     """
     pre: 1 <= split <= 2
-    pre: 0 <= pad0 <= 2 and 0 <= pad1 <= 2
+    pre: 0 <= pad0 <= 2 and (0 <= pad1 <= 2 or pad1 == 9)
     pre: 0 <= s0 <= 255 and 0 <= s1 <= 255
     pre: PART < 0 or (split - 1) * 8 + (4 if vr1 else 0) + (2 if enc0 else 0) + (1 if enc1 else 0) == PART
     post: _
@@ -64,7 +67,7 @@ def seq_two_segments_q(split: int, pad0: int, cs0: bool, tl0: bool, enc0: bool, 
 def seq_two_segments(split: int, pad0: int, cs0: bool, tl0: bool, enc0: bool, pad1: int, cs1: bool, tl1: bool, enc1: bool, vr1: bool, s0: int, s1: int) -> bool:
     """
     pre: 1 <= split <= 2
-    pre: 0 <= pad0 <= 3 and 0 <= pad1 <= 3
+    pre: (0 <= pad0 <= 3 or pad0 == 9) and (0 <= pad1 <= 3 or pad1 == 9)
     pre: 0 <= s0 <= 255 and 0 <= s1 <= 255
     pre: PART < 0 or (split - 1) * 8 + (4 if vr1 else 0) + (2 if enc0 else 0) + (1 if enc1 else 0) == PART
     post: _
@@ -79,7 +82,7 @@ def seq_two_segments(split: int, pad0: int, cs0: bool, tl0: bool, enc0: bool, pa
 def seq_three_segments(split: int, pad0: int, tl0: bool, pad1: int, cs1: bool, enc1: bool, pad2: int, cs2: bool, tl2: bool, vr1: bool, vr2: bool, s1: int) -> bool:
     """
     pre: 1 <= split <= 3
-    pre: 0 <= pad0 <= 2 and 0 <= pad1 <= 2 and 0 <= pad2 <= 2
+    pre: 0 <= pad0 <= 2 and 0 <= pad1 <= 2 and (0 <= pad2 <= 2 or pad2 == 9)
     pre: 0 <= s1 <= 255
     pre: PART < 0 or (split - 1) * 4 + (2 if vr1 else 0) + (1 if vr2 else 0) == PART
     post: _
